@@ -13,7 +13,7 @@ from harness.props import c11 as C11
 
 RULE = ("elements, substances (formula string or dict of elements) and materials (1..5 substances, dict or '<..>' "
         "string, every norm_type) with a mass density or a number density (sometimes both) and optionally a volume, "
-        "log-uniform positive values, a quarter of the composites modified after construction with add() of a present or a new component, each given in a randomly chosen compatible unit and a second time in another "
+        "log-uniform positive values, a quarter of the composites modified after construction with add() of a present or a new component, substances with their own proportion != 1, tables of selected components requested before and after the full table, histories (operand with a density in a + b / b + a, add() on the sum, operand re-read), each quantity given in a randomly chosen compatible unit and a second time in another "
         "unit; corpus first. non-trivial = at least two components and a volume or a non-standard unit; distinct = "
         "canonical JSON of the case")
 ASSUMPTIONS = [
@@ -70,7 +70,8 @@ def gen_case(rng, nat, allsym):
                 "proportion": rng.choice([1, 1, 2, 3, 5, 12])}
     elif r < 0.4:
         f = rng.choice(C11.POOL) if rng.random() < 0.6 else C11.rand_formula(rng, syms)
-        case = {"kind": "substance", "formula": f, "natural": natural, "via": rng.choice(["string", "string", "dict"])}
+        case = {"kind": "substance", "formula": f, "natural": natural, "via": rng.choice(["string", "string", "dict"]),
+                "proportion": rng.choice([1, 1, 2, 3, 0.5, 10])}     # a substance may itself be a component
         if case["via"] == "dict":
             k = rng.choice([1, 2, 3, 4])
             case["comps"] = [[s, rng.choice([1, 1, 2, 3, 4, 6])] for s in rng.sample(syms, k)]
@@ -105,6 +106,9 @@ def gen_case(rng, nat, allsym):
         case["then_add"] = [rng.randrange(8), rng.choice([1, 2, 3, 0.5, 0.25, 10])]
         if rng.random() < 0.4:      # ... or of a new one
             case["then_add"].append("Xe" if case["kind"] == "substance" else "XeF4")
+    if case["kind"] != "element" and rng.random() < 0.5:
+        # tables of selected components are requested before and after the full table
+        case["keeps"] = [[rng.random() < 0.5 for _ in range(8)] for _ in range(2)]
     if rng.random() < 0.03:
         # a volume without any density: outside the property (the constructor raises: None * Quantity);
         # only impl vs model is compared
@@ -129,9 +133,9 @@ def build(case, alt=False):
         return Element(case["expr"], proportion=case.get("proportion", 1), natural=case["natural"], **kw)
     if case["kind"] == "substance":
         if case.get("via") == "dict":
-            obj = Substance({s: c for s, c in case["comps"]}, natural=case["natural"], **kw)
+            obj = Substance({s: c for s, c in case["comps"]}, proportion=case.get("proportion", 1.0), natural=case["natural"], **kw)
         else:
-            obj = Substance(case["formula"], natural=case["natural"], **kw)
+            obj = Substance(case["formula"], proportion=case.get("proportion", 1.0), natural=case["natural"], **kw)
     else:
         if case["via"] == "string":
             expr = " ".join("%.4f <%s>" % (p, f) for f, p in case["comps"])
@@ -163,7 +167,28 @@ def observe(case, obj):
     out["n"] = float(obj.number_density.value('cm-3'))
     hasvol = case.get("vol") is not None
     out["mass"] = float(obj.mass.value('g')) if hasvol else None
-    dm = obj.data_matter(quantity=False)
+    def table(dmx, ks):
+        t = {"keys": [k for k in dmx.keys() if k not in ("avg", "sum")],
+             "n": [float(dmx[k].n) for k in ks], "rho": [float(dmx[k].rho) for k in ks],
+             "N": [float(dmx[k].N) for k in ks] if hasvol else None, "M": [float(dmx[k].M) for k in ks] if hasvol else None}
+        sm = dmx['sum']
+        t["sum"] = {"n": float(sm.n), "rho": float(sm.rho), "N": float(sm.N) if hasvol else None, "M": float(sm.M) if hasvol else None}
+        return t
+    masks = [(m + [True] * len(keys))[:len(keys)] for m in case.get("keeps", [])] if case["kind"] != "element" else []
+    masks = [m if any(m) else [True] + m[1:] for m in masks]
+    out["keeps"], out["sel"] = masks, []
+    if masks:      # a selection first ...
+        ks = [k for k, b in zip(keys, masks[0]) if b]
+        out["sel"].append(table(obj.data_matter(components=ks, quantity=False), ks))
+    dm = obj.data_matter(quantity=False)        # ... then the full table ...
+    if case["kind"] != "element":
+        out["full_keys"] = [k for k in dm.keys() if k not in ("avg", "sum")]
+        if out["full_keys"] != keys:
+            raise SelectionLeak("data_matter() requested after data_matter(components=%s) lists %s, the components are %s" %
+                                ([k for k, b in zip(keys, masks[0]) if b] if masks else None, out["full_keys"], keys))
+    if len(masks) > 1:                          # ... then another selection
+        ks = [k for k, b in zip(keys, masks[1]) if b]
+        out["sel"].append(table(obj.data_matter(components=ks, quantity=False), ks))
     out["n_i"] = [float(dm[k].n) for k in keys]
     out["rho_i"] = [float(dm[k].rho) for k in keys]
     out["N_i"] = [float(dm[k].N) for k in keys] if hasvol else None
@@ -177,9 +202,15 @@ def observe(case, obj):
     return out
 
 
+class SelectionLeak(Exception):
+    pass
+
+
 def run_impl(case, alt=False):
     try:
         return observe(case, build(case, alt))
+    except SelectionLeak as e:
+        return {"err": str(e), "selection": True}
     except Exception as e:  # noqa
         return {"err": repr(e)[:300]}
 
@@ -233,6 +264,8 @@ def request(case, imp):
             "vol": qpair("vol", case.get("vol")), "via": via}
     if hist is not None:
         req["hist"] = hist
+    if "err" not in imp and imp.get("keeps"):
+        req["keeps"] = imp["keeps"]
     return req
 
 
@@ -260,6 +293,9 @@ def judge(case, imp, res, imp2=None):
         if ("err" in imp) != (r["model"] == "err"):
             dis.append(("matter", "volume only: impl %s, model %s" % ("raises" if "err" in imp else "ok", json.dumps(r["model"])[:100])))
         return viol, dis
+    if "err" in imp and imp.get("selection"):
+        viol.append(("matter:selection", imp["err"]))
+        return viol, dis
     if "err" in imp:
         if mode == "MASS_FRACTION":
             viol.append(("matter:MASS_FRACTION:density", "attaching a density to a MASS_FRACTION material raises: %s" % imp["err"]))
@@ -269,6 +305,28 @@ def judge(case, imp, res, imp2=None):
             dis.append(("matter", "impl raises, model %s" % json.dumps(r["model"])[:200]))
         return viol, dis
     hasvol = case.get("vol") is not None
+    # ---- the object must still hold the composition it was given (nobody else may change it)
+    want = expected_props(case)
+    if want is not None:
+        got = dict(zip(imp["keys"], imp["p"]))
+        if set(got) != set(want) or any(not close(got[k], want[k]) for k in want):
+            viol.append(("matter:composition-changed", "the %s was given the composition %s but now holds %s" % (case["kind"], want, got)))
+            return viol, dis
+    # ---- tables are views: selections list the selected rows of the full table, the full table lists everything
+    if imp.get("full_keys") is not None and imp["full_keys"] != imp["keys"]:
+        viol.append(("matter:selection", "data_matter() after data_matter(components=…) lists %s, the components are %s" % (imp["full_keys"], imp["keys"])))
+        return viol, dis
+    for mask, t in zip(imp.get("keeps", []), imp.get("sel", [])):
+        ks = [k for k, b in zip(imp["keys"], mask) if b]
+        rows_ok = t["keys"] == ks
+        for col, full in (("n", imp["n_i"]), ("rho", imp["rho_i"]), ("N", imp["N_i"]), ("M", imp["M_i"])):
+            if rows_ok and full is not None:
+                sel = [v for v, b in zip(full, mask) if b]
+                rows_ok = len(sel) == len(t[col]) and all(close(a, b) for a, b in zip(t[col], sel)) and close(t["sum"][col], math.fsum(sel))
+        if not rows_ok:
+            viol.append(("matter:selection", "data_matter(components=%s) lists %s with rho %s, sum %s; full table: %s rho %s" %
+                         (ks, t["keys"], t["rho"], t["sum"]["rho"], imp["keys"], imp["rho_i"])))
+            return viol, dis
     # ---- oracle: relations of the property on the reported numbers themselves (all modes)
     vstd = case["vol"][0] * factor("vol", case["vol"][1]) if hasvol else None
     gstd = case[given][0] * factor(given, case[given][1])
@@ -333,11 +391,84 @@ def judge(case, imp, res, imp2=None):
             ok = ok and close(imp["sum"]["n"], uf(tb["sum"]["n"])) and close(imp["sum"]["rho"], uf(tb["sum"]["rho"]))
             if hasvol:
                 ok = ok and close(imp["sum"]["N"], uf(tb["sum"]["N"])) and close(imp["sum"]["M"], uf(tb["sum"]["M"]))
+        for t, ms in zip(imp.get("sel", []), m.get("sel", [])):
+            ok = ok and cmp_list(t["n"], ms["n"]) and cmp_list(t["rho"], ms["rho"]) and \
+                close(t["sum"]["n"], uf(ms["sum"]["n"])) and close(t["sum"]["rho"], uf(ms["sum"]["rho"]))
         if not ok:
             dis.append(("matter", "impl %s ; model state %s" % (
                 json.dumps({k: imp[k] for k in ("rho", "n", "mass", "n_i", "rho_i")})[:300],
                 {k: (float(uf(v)) if v else None) for k, v in st.items()})))
     return viol, dis
+
+
+def expected_props(case):
+    """composition the object must hold, where the case states it (None: a formula string)"""
+    if case["kind"] == "element":
+        return None
+    if case["kind"] == "substance" and case.get("via") != "dict":
+        return None
+    want = {}
+    for f, p in case["comps"]:
+        want[f] = want.get(f, 0.0) + float("%.4f" % p if case.get("via") == "string" else p)
+    ta = case.get("then_add")
+    if ta:
+        keys = list(want)
+        key = ta[2] if len(ta) > 2 and ta[2] not in keys else keys[ta[0] % len(keys)]
+        want[key] = want.get(key, 0.0) + ta[1]
+    return want
+
+
+def history_stream(ctx, nat, allsym, n):
+    """a composite with a density is an operand of `+`; the sum is then grown with add(); the operand is re-read:
+    it must be exactly what it was (composition, densities, mass, tables)"""
+    cases, objs = [], []
+    for i in range(n):
+        while True:
+            b = gen_case(ctx.rng, nat, allsym)
+            if b["kind"] != "element" and b.get("via") == "dict" and not b.get("then_add") and (b.get("rho") or b.get("n")) \
+                    and b.get("mode") != "MASS_FRACTION":
+                break
+        b = dict(b, history=True)
+        new = "Xe" if b["kind"] == "substance" else "XeF4"
+        if new in [c[0] for c in b["comps"]]:
+            continue
+        a = dict(b, rho=None, n=None, vol=None, comps=[[new, 1.5]] + ([b["comps"][0]] if ctx.rng.random() < 0.5 else []))
+        a.pop("keeps", None)
+        order = ctx.rng.choice(["a+b", "b+a"])
+        padd = ctx.rng.choice([1, 2, 0.5, 10])
+        try:
+            ob, oa = build(b), build(a)
+            mix = (oa + ob) if order == "a+b" else (ob + oa)
+            for key in list(mix.components.keys()):
+                mix.add(key, padd)               # the sum is enriched, component by component
+        except Exception as e:  # noqa
+            ctx.violation("matter:history:error", "a + b / add() on valid composites raises %r  [%s]" % (e, json.dumps(b)[:300]),
+                          {"stream": "history", "case": b, "other": a, "order": order})
+            continue
+        b["history_note"] = {"other": a["comps"], "order": order, "added": padd}
+        cases.append(b)
+        objs.append(ob)
+    imps = []
+    for c, o in zip(cases, objs):
+        try:
+            imps.append(observe(c, o))
+        except SelectionLeak as e:
+            imps.append({"err": str(e), "selection": True})
+        except Exception as e:  # noqa
+            imps.append({"err": repr(e)[:300]})
+    reqs = [request(c, i) for c, i in zip(cases, imps)]
+    idx = [k for k, r in enumerate(reqs) if r is not None]
+    answers = ctx.driver.ask_many([reqs[k] for k in idx])
+    for k, ans in zip(idx, answers):
+        case, imp = cases[k], imps[k]
+        ctx.case(["history", case], True)
+        ctx.count("history.operand_reread")
+        viol, dis = judge(case, imp, ans, None)
+        for sig, what in viol[:1]:
+            ctx.violation(sig, "operand of a sum, re-read after add() on the sum: %s  [%s]" % (what, json.dumps(case)[:400]),
+                          {"stream": "history", "case": case, "impl": imp})
+        for stream, detail in dis[:1]:
+            ctx.disagreement("history-" + stream, case, detail)
 
 
 def corpus_cases():
@@ -388,6 +519,7 @@ def correspond(ctx: Ctx):
     for i in range(2500 if thorough else 300):
         cases.append(gen_case(ctx.rng, nat, allsym))
     process(ctx, cases)
+    history_stream(ctx, nat, allsym, 200 if thorough else 30)
     ctx.extra["unit_magnitudes_read"] = {"%s:%s" % k: v for k, v in sorted(_factors.items())}
 
 
